@@ -517,6 +517,9 @@ def gen_vreal_script(r, nconf, iters, counts, seed):
             continue
         if any(lf[0] == "t" and not lf[1] for lf in leaves(sp)):
             continue       # unbounded time: maximum extent is still finite, but sampleUniform always gives 0
+        if any((lf[0] == "r" and lf[2] - lf[1] < 1e-6) or (lf[0] == "t" and lf[3] - lf[2] < 1e-6) or
+               (lf[0] == "d" and lf[1] == lf[2]) for lf in leaves(sp)) and not r.chance(1, 6):
+            continue       # SpaceInformation::setup() refuses components of zero extent (printed as `skip`)
         name = r.choice(VS_NAMES)
         mode = r.choice(["s", "n"])
         ext = extent(sp)
@@ -795,7 +798,7 @@ def run(ck):
     ck.count("scripts:directed-enf")
 
     # (a) enforceBounds lock-step
-    nscripts, nops = (12, 250) if quick else (60, 500)
+    nscripts, nops = (16, 300) if quick else (60, 500)
     jobs = []
     for i in range(nscripts):
         r = ck.rng.fork("enf%d" % i)
@@ -824,7 +827,7 @@ def run(ck):
             break
 
     # (b) real samplers, implementation only
-    nscripts, nconf, ndraws = (12, 40, 10000) if quick else (32, 80, 100000)
+    nscripts, nconf, ndraws = (16, 40, 20000) if quick else (32, 80, 100000)
     jobs = []
     for i in range(nscripts):
         r = ck.rng.fork("samp%d" % i)
@@ -838,7 +841,7 @@ def run(ck):
             break
 
     # (c') valid-state samplers over the real samplers and a recorded pseudo-random predicate
-    nscripts, nconf, iters = (8, 30, 300) if quick else (24, 60, 2000)
+    nscripts, nconf, iters = (12, 30, 400) if quick else (24, 60, 2000)
     jobs = []
     for i in range(nscripts):
         r = ck.rng.fork("vreal%d" % i)
